@@ -17,15 +17,15 @@ Theorem samplings_in_unit_disk :
     (forall sym xs ys, k_dist_gq ROps n vx vy sym = Some (xs, ys) -> Forall in_unit_disk (combine xs ys)) /\
     (forall r th, Forall unit_interval r -> Forall in_unit_disk (pts (k_dist_random ROps vx vy r th))).
 Proof.
-  intros n vx vy Hx Hy. repeat split.
-  - intro po. apply line_x_in_disk; assumption.
-  - intro po. apply line_y_in_disk; assumption.
-  - apply cross_in_disk; assumption.
-  - apply ring_in_disk; assumption.
-  - apply hexapolar_in_disk; assumption.
-  - apply uniform_in_disk; assumption.
-  - intros sym xs ys H. eapply gq_in_disk; eassumption.
-  - intros r th Hr. apply random_in_disk; assumption.
+  intros n vx vy Hx Hy.
+  split; [intro po; apply line_x_in_disk; exact Hx|].
+  split; [intro po; apply line_y_in_disk; exact Hy|].
+  split; [apply cross_in_disk; assumption|].
+  split; [apply ring_in_disk; assumption|].
+  split; [apply hexapolar_in_disk; assumption|].
+  split; [apply uniform_in_disk; assumption|].
+  split; [intros sym xs ys H; exact (gq_in_disk n vx vy sym xs ys Hx Hy H)|].
+  intros r th Hr. apply random_in_disk; assumption.
 Qed.
 
 (** "field vignetting factors can only shrink the sampled pupil": point by point |x(vx)| <= |x(0)|, |y(vy)| <= |y(0)| *)
@@ -49,13 +49,13 @@ Theorem samplings_vignetting_shrinks :
                   shrinks (snd (k_dist_random ROps vx vy r th)) (snd (k_dist_random ROps 0 0 r th))).
 Proof.
   intros n vx vy Hx Hy.
-  split; [intro po; apply line_x_shrinks; assumption|].
-  split; [intro po; apply line_y_shrinks; assumption|].
+  split; [intro po; apply line_x_shrinks; exact Hx|].
+  split; [intro po; apply line_y_shrinks; exact Hy|].
   split; [apply cross_shrinks; assumption|].
   split; [apply ring_shrinks; assumption|].
   split; [apply hexapolar_shrinks; assumption|].
   split; [apply uniform_shrinks; assumption|].
-  split; [intros sym xs ys xs0 ys0 H H0; eapply gq_shrinks; eassumption|].
+  split; [intros sym xs ys xs0 ys0 H H0; exact (gq_shrinks n vx vy sym xs ys xs0 ys0 Hx Hy H H0)|].
   intros r th. apply random_shrinks; assumption.
 Qed.
 
